@@ -114,6 +114,10 @@ def check_C14(tier, seed):
 
 
 
+# the big-integer operations the slow path leans on, small enough for the quick tier of the composite properties
+BIGINT_SUBSET = (r"large_add_from_(0|1|2|3|10|57|58|62)_|c12_shl_[12]_(0|1)_(0|1|63)$|bigint_pow_dispatch|pow_decomposition|pow_concrete|"
+                 r"long_mul_concrete|small_mul_logged_(1|3|62)$|c12_hi64_(1|2|3|62)$|shl_bits_(2|62)$|shl_limbs_2_")
+
 COMPOSITION = ("Compositional (DESIGN.md section 5): each stage's contract is decided by a solver over the real code "
                "(MIR->SMT for the scalar kernels, Kani/CBMC for loops/memory, ground SMT for tables); the step from the "
                "contracts to the end-to-end statement is a written argument and is part of the trusted base.")
@@ -147,8 +151,7 @@ def _correct_rounding(pid, fmt, tier, seed):
     G.run_kani_core(rp, tier, seed, [pre, "c17_%s" % fmt, "c18_masks"])
     G.run_kani_slow(rp, tier, seed, fmts=(fmt,))
     G.run_kani_parse(rp, tier, seed, ["pn", "pm"], minimal=True)
-    if tier == "thorough":
-        G.run_kani_vec(rp, "quick", seed, ["C12"])
+    G.run_kani_vec(rp, "quick", seed, ["C12"], name_filter=None if tier == "thorough" else BIGINT_SUBSET)
     rp.bounds += [
         "moderate path (%s): every significand of each enumerated (q, leading-zero) class; quick = seeded subset incl. lz=0 for every q" % fmt,
         "fast path: every decimal exponent in the dispatch window, all (w, truncated)",
@@ -313,6 +316,8 @@ def check_C13(tier, seed):
     rp = Report("C13", tier, seed)
     rp.trusted.update(KANI_TRUST)
     G.run_kani_vec(rp, tier, seed, ["C13"])
+    # the small-arithmetic operations of the vectors (add_small / mul_small) are the C12 harnesses at short lengths
+    G.run_kani_vec(rp, tier, seed, ["C12"], name_filter=r"small_mul_logged_(0|1|2|3|62)$|small_add_from_(0|1|2|3|62)_|small_mul_real_0")
     if tier == "thorough":
         G.run_kani_vec(rp, "quick", seed, ["C13"], config="alloc")
     rp.bounds += ["inductive step: one operation from an arbitrary valid state (every length enumerated as for C12, contents symbolic) "
@@ -397,6 +402,7 @@ def check_C04(tier, seed):
     G.run_kani_parse(rp, tier, seed, ["pn", "pm"], minimal=True)
     G.run_kani_core(rp, tier, seed, ["c18_", "c17_"])
     G.run_kani_slow(rp, tier, seed)
+    G.run_kani_vec(rp, "quick", seed, ["C12"], name_filter=None if tier == "thorough" else BIGINT_SUBSET)
     G.run_capacity(rp)
     rp.bounds += ["scalar kernels: MIR built with -C debug-assertions=on -C overflow-checks=on (default and compact); valid significands "
                   "(w < 10^19 where digits were truncated); classes as in C11 (quick: lz=0 for every q + seeded 15% of the boundary set)",
